@@ -139,8 +139,23 @@ def run(ctx):
                 problems.append(("correspondence:flattening-hypotheses:" + nm,
                                  "the table the %s loader model builds for an estimator-like file does not satisfy the hypotheses of C08_any_bracketing (%s)" % (nm, mout[nset - 1]),
                                  dict(base), False))
-        for typ in ["probing", "rest", "trie", "atrie"] + (["qtrie"] if not ctx.quick else []):
+        # Config::REST_LOWER (the quantifier names it): rest costs taken from lower-order models with scores of their own -- nothing orders
+        # the rest cost of an n-gram and of its extension, so only the telescoping of RuleScore / ExtendLeft / UnRest makes the totals
+        # right (fifth-round seeded change C08-13 clamped a positive relative rest cost, dead code under REST_MAX)
+        lower = None
+        if m.order >= 3 and getattr(m, "raw_arpa", None) is None and (mi % 2 == 0 or ctx.replaying):
+            if ro.get("lower"):
+                lower = []
+                for i, text in enumerate(ro["lower"]):
+                    lower.append(os.path.join(sess.dir, "lower%d.arpa" % (i + 1)))
+                    open(lower[-1], "wb").write(text.encode("latin-1"))
+            else:
+                lower = lc.lower_order_files(rng, m, sess.dir)
+        for typ in ["probing", "rest", "trie", "atrie"] + (["rest_lower"] if lower else []) + (["qtrie"] if not ctx.quick else []):
             cmd = [lmq, sess.arpa, typ, sess.vocab, "tmp=" + sess.dir + "/"]
+            if typ == "rest_lower":
+                cmd = [lmq, sess.arpa, "rest", sess.vocab, "tmp=" + sess.dir + "/", "rest_lower=" + ",".join(lower)]
+                stats["rest_lower_models"] = stats.get("rest_lower_models", 0) + 1
             rc, out, err = vlib.sh(cmd, input=("\n".join(lines_impl) + "\n").encode(), timeout=300)
             stats["impl_runs"] += 1
             res = out.split("\n")
@@ -164,7 +179,9 @@ def run(ctx):
                     total += p
                     hist = [w] + hist
                 rq = dict(base, type=typ, sentence=s, bos=bos, tree=" ".join(toks))
-                if typ != "qtrie" and (bos or typ != "rest"):
+                if typ == "rest_lower":
+                    rq["lower"] = [open(f, "rb").read().decode("latin-1") for f in lower]
+                if typ != "qtrie" and (bos or typ not in ("rest", "rest_lower")):
                     if got is None or got[0] != total:
                         problems.append(("spec:total:" + typ + (":bos" if bos else ":fragment"),
                                          "derivation total %s/64, left-to-right total %s/64" % (got[0] if got else None, total), rq, True))
